@@ -74,7 +74,7 @@ reg('rand_choi_op', _g_choi,
     lambda nq, a, v: mb.choi_op(a, v), branch=lambda a: f"rank={'None' if a['rank'] is None else 'int'}")
 
 reg('rand_povm',
-    lambda r: {'dim': r.randint(1, 4), 'num_term': r.randint(1, 5)},
+    lambda r: {'dim': r.randint(1, 4), 'num_term': r.randint(1, 5) if r.random() < 0.9 else r.choice([64, 129, 257])},
     lambda nq, a, s: nq.random.rand_povm(a['dim'], a['num_term'], seed=s),
     lambda nq, a, v: mb.povm(a, v))
 
@@ -92,7 +92,7 @@ reg('rand_bipartite_state', _g_bip,
     branch=lambda a: f"dimB={'None' if a['dimB'] is None else 'int'},k={'None' if a['k'] is None else 'int'},dm={a['return_dm']}")
 
 reg('rand_separable_dm',
-    lambda r: {'dimA': r.randint(1, 3), 'dimB': r.choice([None, 1, 2, 3]), 'k': r.randint(1, 6) if r.random() < 0.8 else r.choice([17, 40, 90]), 'pure_term': r.random() < 0.5},
+    lambda r: {'dimA': r.randint(1, 3), 'dimB': r.choice([None, 1, 2, 3]), 'k': r.randint(1, 6) if r.random() < 0.8 else r.choice([17, 40, 90, 128, 129, 257]), 'pure_term': r.random() < 0.5},
     lambda nq, a, s: nq.random.rand_separable_dm(a['dimA'], dimB=a['dimB'], k=a['k'], seed=s, pure_term=a['pure_term']),
     lambda nq, a, v: mb.separable_dm(a, v), weight=2, branch=lambda a: f"dimB={'None' if a['dimB'] is None else 'int'},pure={a['pure_term']}")
 
@@ -162,7 +162,7 @@ reg('rand_adjacent_matrix',
 
 
 def _g_size(r):
-    return r.choice([None, r.randint(1, 4), [r.randint(1, 3), r.randint(1, 3)], []])
+    return r.choice([None, r.randint(1, 4), [r.randint(1, 3), r.randint(1, 3)], []]) if r.random() < 0.9 else r.choice([129, 1025, [3, 129]])
 
 
 def _size_branch(a):
@@ -401,7 +401,7 @@ def _opt_result(res):
 
 
 def _c_minimize(nq, a, s, ctx=None):
-    key = ('m', repr(sorted(a.items())))
+    key = ('model', a['model'], a['n'], a['mseed'])  # one model object per (kind, n, mseed): shared with minimize_adam specs of the same run
     if a['reuse'] and ctx is not None and key in ctx:
         model = ctx[key]
     else:
@@ -434,14 +434,20 @@ reg('optimize.minimize', _g_minimize, _c_minimize, None, weight=3, heavy=True,
 
 
 def _c_adam(nq, a, s, ctx=None):
-    model = make_model(nq, a)
+    key = ('model', a['model'], a['n'], a['mseed'])
+    if a.get('reuse') and ctx is not None and key in ctx:
+        model = ctx[key]  # possibly left behind by numqi.optimize.minimize on the same object (gradients, parameters)
+    else:
+        model = make_model(nq, a)
+        if ctx is not None:
+            ctx[key] = model
     loss, hist = nq.optimize.minimize_adam(model, a['num_step'], theta0=a['theta0'], optim_args=tuple(a['optim_args']), seed=s, tqdm_update_freq=0, tag_return_history=True)
     return {'loss': float(loss), 'hist': np.asarray(hist), 'params_after': nq.optimize.get_model_flat_parameter(model)}
 
 
 reg('optimize.minimize_adam',
     lambda r: {'model': r.choice(['quartic', 'sphere']), 'n': r.randint(2, 4), 'mseed': r.getrandbits(16), 'num_step': r.randint(3, 15),
-               'theta0': r.choice(['uniform', 'normal']), 'optim_args': r.choice([['adam', 0.05], ['sgd', 0.01], ['adam', 0.05, 0.01]])},
+               'theta0': r.choice(['uniform', 'normal']), 'optim_args': r.choice([['adam', 0.05], ['sgd', 0.01], ['adam', 0.05, 0.01]]), 'reuse': r.random() < 0.6},
     _c_adam, None, weight=1, heavy=True, branch=lambda a: f"{a['optim_args'][0]},{a['theta0']}")
 
 
@@ -477,6 +483,18 @@ def _boundary_result(ret, return_info):
     return {'beta': float(ret)}
 
 
+def _herm(d, seed):
+    r = np.random.Generator(np.random.PCG64(seed))
+    a = r.normal(size=(d, d)) + 1j * r.normal(size=(d, d))
+    return a + a.conj().T
+
+
+def _numerical_range(model, a, s):
+    d2 = a['d'] * a['d']
+    ret = model.get_numerical_range(_herm(d2, a.get('tseed', 0) + 100), _herm(d2, a.get('tseed', 0) + 200), num_theta=a.get('num_theta', 3), converge_tol=1e-6, use_tqdm=False, seed=s)
+    return {'range': np.asarray(ret)}
+
+
 def _c_charee(nq, a, s, ctx=None):
     key = ('charee', a['d'], a['num_state'], a['distance_kind'])
     if a.get('reuse') and ctx is not None and key in ctx:
@@ -485,14 +503,16 @@ def _c_charee(nq, a, s, ctx=None):
         model = nq.entangle.AutodiffCHAREE((a['d'], a['d']), num_state=a['num_state'], distance_kind=a['distance_kind'])
         if ctx is not None:
             ctx[key] = model
+    if a.get('api') == 'numerical_range':
+        return _numerical_range(model, a, s)
     ret = model.get_boundary(_target_dm(nq, a), xtol=a['xtol'], converge_tol=1e-8, use_tqdm=False, return_info=a.get('return_info', False), seed=s)
     return _boundary_result(ret, a.get('return_info', False))
 
 
 reg('AutodiffCHAREE.get_boundary',
     lambda r: {'d': 2, 'num_state': r.choice([4, 6]), 'distance_kind': r.choice(['ree', 'gellmann']), 'target': r.choice(['werner', 'isotropic', 'random', 'random', 'random']), 'tseed': r.randrange(8), 'alpha': r.choice([1.0, 0.8]),
-               'xtol': r.choice([0.1, 0.05]), 'reuse': r.random() < 0.7, 'return_info': r.random() < 0.8},
-    _c_charee, None, weight=0.8, heavy=True, solver=True, branch=lambda a: f"{a['distance_kind']},reuse={a['reuse']},info={a['return_info']}")
+               'xtol': r.choice([0.1, 0.05]), 'reuse': r.random() < 0.7, 'return_info': r.random() < 0.8, 'api': r.choice(['boundary', 'boundary', 'numerical_range']), 'num_theta': r.randint(2, 4)},
+    _c_charee, None, weight=1.0, heavy=True, solver=True, branch=lambda a: f"{a['api']},{a['distance_kind']},reuse={a['reuse']},info={a['return_info']}")
 
 
 def _c_pureb(nq, a, s, ctx=None):
@@ -503,14 +523,16 @@ def _c_pureb(nq, a, s, ctx=None):
         model = nq.entangle.PureBosonicExt(a['d'], a['d'], kext=a['kext'], distance_kind=a['distance_kind'])
         if ctx is not None:
             ctx[key] = model
+    if a.get('api') == 'numerical_range':
+        return _numerical_range(model, a, s)
     ret = model.get_boundary(_target_dm(nq, a), xtol=a['xtol'], converge_tol=1e-8, use_tqdm=False, return_info=a.get('return_info', False), seed=s)
     return _boundary_result(ret, a.get('return_info', False))
 
 
 reg('PureBosonicExt.get_boundary',
     lambda r: {'d': 2, 'kext': 3, 'distance_kind': r.choice(['ree', 'gellmann']), 'target': r.choice(['werner', 'isotropic', 'random', 'random', 'random']), 'tseed': r.randrange(8), 'alpha': r.choice([1.0, 0.8]),
-               'xtol': r.choice([0.1, 0.05]), 'reuse': r.random() < 0.7, 'return_info': r.random() < 0.8},
-    _c_pureb, None, weight=0.8, heavy=True, solver=True, branch=lambda a: f"{a['distance_kind']},reuse={a['reuse']},info={a['return_info']}")
+               'xtol': r.choice([0.1, 0.05]), 'reuse': r.random() < 0.7, 'return_info': r.random() < 0.8, 'api': r.choice(['boundary', 'boundary', 'numerical_range']), 'num_theta': r.randint(2, 4)},
+    _c_pureb, None, weight=1.0, heavy=True, solver=True, branch=lambda a: f"{a['api']},{a['distance_kind']},reuse={a['reuse']},info={a['return_info']}")
 
 
 def _c_check_ud(nq, a, s, ctx=None):
